@@ -15,6 +15,7 @@ MARK = {
     "placed": "model verdict placed=false: a later mmap call is not MAP_FIXED at a named block (its address is only a hint)",
     "returnsBase": "model verdict returnsBase=false: vmem_helper::new does not return the start of the first mapping",
 }
+EXTRA_OF = {"destroys": "from_vec_owned"}
 PROBE_OF = {"mirror": "mirror", "contents": "from_vec_contents", "destroys": "drop_items", "unmap": "unmap"}
 
 
@@ -47,7 +48,7 @@ def run(pid, tier, seed, ctx):
                 if v != "true":
                     viol.append({"kind": "model", "tags": ["C17"], "features": feats, "case": f"# driver line `c17` -> {outl[0]}", "failures": [{"detail": MARK.get(k, f"model verdict {k}=false")}]})
                 if k in PROBE_OF:
-                    obs = all(r["ok"] for r in rows if r["check"] == PROBE_OF[k])
+                    obs = all(r["ok"] for r in rows if r["check"] in (PROBE_OF[k], EXTRA_OF.get(k)))
                     if obs != (v == "true"):
                         div.append({"kind": "correspondence", "features": feats, "detail": f"model verdict {k}={v} but the implementation's `{PROBE_OF[k]}` observations say {str(obs).lower()}", "case": f"# vmemprobe `{PROBE_OF[k]}` rows vs driver line `c17`"})
             for r, o in zip(rnd, outl[1:]):
